@@ -33,7 +33,7 @@ import re
 import sys
 
 ROOT = os.path.dirname(os.path.abspath(__file__))
-REPO = "/repo"
+REPO = os.environ.get("VERIF_REPO", "/repo").rstrip("/")
 MAP = os.path.join(ROOT, "source_map.json")
 DIRS = ["ssz/src", "ssz_derive/src"]
 
